@@ -264,6 +264,8 @@ class SAConc:
         out = []
         for k in range(n):
             q = ptr_add(p, k) if isinstance(p, tuple) else None
+            if q is None and k == 0 and isinstance(p, tuple) and p[0] == '&':
+                q = p           # the address of a scalar object (&ch)
             b = _one(E.get(q[1])) if q is not None else None
             if not isinstance(b, int):
                 return None
